@@ -13,10 +13,11 @@ PROPS = ["C08/Props.v"]
 CLAUSE = {1: "missing-call", 2: "call-for-unreachable", 3: "called-twice", 4: "event-identity",
           5: "quiet-link-called", 6: "mutation-raised", 7: "call-without-change"}
 FIELD = {0: "value", 1: "f", 2: "g", 3: "kids", 4: "m", 5: "s", 6: "list_items", 7: "dict_items", 8: "set_items",
-         10: "trait_added", 11: "trait_modified"}
+         10: "trait_added", 11: "trait_modified", 12: "x1", 13: "x2"}
 # FilteredTraitObserver nodes (DESIGN 6 C08: "filters are modelled as a set of matching names supplied by the
-# harness"): the node is presented to the model as one named-trait graph per matching trait of class N
-FILTERS = {"anytrait": [0, 1, 2, 3, 4, 5, 10, 11],   # expression.anytrait(): leaf only (values are of mixed types)
+# harness"): the model node carries the list of trait names the filter matches on class N; the dynamic traits
+# 12, 13 exist on an object only after add_trait (the model gates every name by trait existence)
+FILTERS = {"anytrait": [0, 1, 2, 3, 4, 5, 10, 11, 12, 13],   # expression.anytrait(): leaf only (mixed value types)
            "tag": [1, 2],                            # expression.metadata("tag"): f and g carry tag=True
            "match_fg": [1, 2],                       # expression.match(lambda name, trait: name in ("f", "g"))
            "match_vk": [0, 3]}                       # expression.match(...) on value and kids: leaf only
@@ -39,13 +40,18 @@ def canon(g):
     return [f, bool(notify), bool(optional), cs]
 
 
-def expand(g):
-    """the model's graphs for one implementation graph: filter nodes become one named node per matching
-    name, children in one canonical order (ObserverGraph equality ignores child order), no optional flag"""
+def expand(g, dyn=False):
+    """the model's graph for one implementation graph: [fields, notify, extra, children]; a named trait has
+    one field, a filter node the names it matches; extra = the node contributes the trait_added graph (not the
+    item observers); children in one canonical order (ObserverGraph equality ignores child order); no
+    optional flag (the model skips a named observer on objects without the trait)"""
     head, notify, _o, children = g
+    if head == "|":                       # "a | b" at the top of an expression: several graphs, one observe() call
+        return [x for c in children for x in expand(c)]
     cs = sorted((x for c in children for x in expand(c)), key=lambda c: json.dumps(c))
     names = FILTERS[head] if isinstance(head, str) else [head]
-    return [[f, bool(notify), cs] for f in names]
+    extra = isinstance(head, str) or not 6 <= head <= 8
+    return [[list(names), bool(notify), extra, cs]]
 
 
 def canon_nopt(g):
@@ -56,8 +62,8 @@ def canon_nopt(g):
 
 
 def mterm(m):
-    f, notify, children = m
-    return C("G", Nat(f), bool(notify), [mterm(c) for c in children])
+    fs, notify, extra, children = m
+    return C("G", nats(fs), bool(notify), bool(extra), [mterm(c) for c in children])
 
 
 def gterm(g):
@@ -66,10 +72,10 @@ def gterm(g):
     return mterm(ms[0])
 
 
-def op_term(op):
+def op_term(op, dyn=False):
     k = op[0]
     if k in ("Observe", "Unobserve"):
-        ms = expand(op[3])
+        ms = expand(op[3], dyn)
         if len(ms) == 1:
             return C(k, Nat(op[1]), Nat(op[2]), mterm(ms[0]))
         return C(k + "All", Nat(op[1]), Nat(op[2]), [mterm(m) for m in ms])
@@ -85,6 +91,8 @@ def op_term(op):
         return C("Splice", Nat(op[1]), Nat(op[2]), Nat(i), Nat(n), nats(vs))
     if k == "Probe":
         return C("Probe", Nat(op[1]))
+    if k == "AddTrait":
+        return C("AddTrait", Nat(op[1]), Nat(op[2]))
     raise ValueError(op)
 
 
@@ -97,18 +105,23 @@ def slot(key):
     return int(a), int(b)
 
 
+def obs_term(ob, prev_heap):
+    out = C("Ok") if ob["out"] == "Ok" else C("Raise", C(ob["out"]))
+    calls = [((Nat(c[0]), Nat(c[1])), atom(c[2]), Nat(c[3]), nats(c[4]), nats(c[5])) for c in ob["calls"]]
+    delta = []
+    for key in sorted(set(ob["heap"]) | set(prev_heap), key=slot):
+        v = ob["heap"].get(key, [])
+        if v != prev_heap.get(key, []):
+            x, f = slot(key)
+            delta.append((Nat(x), Nat(f), nats(v)))
+    return C("mkObs", out, calls, delta)
+
+
 def to_term(case, obs):
     h = []
     prev_heap, prev_hooks = {}, None
     for op, ob in zip(case["ops"], obs):
-        out = C("Ok") if ob["out"] == "Ok" else C("Raise", C(ob["out"]))
-        calls = [((Nat(c[0]), Nat(c[1])), atom(c[2]), Nat(c[3]), nats(c[4]), nats(c[5])) for c in ob["calls"]]
-        delta = []
-        for key in sorted(ob["heap"], key=slot):
-            v = ob["heap"][key]
-            if v != prev_heap.get(key, []):
-                x, f = slot(key)
-                delta.append((Nat(x), Nat(f), nats(v)))
+        obt = obs_term(ob, prev_heap)
         prev_heap = ob["heap"]
         if ob["hooks"] == prev_hooks:
             hs = None
@@ -120,11 +133,13 @@ def to_term(case, obs):
                 ent.append((Nat(x), Nat(f), Nat(nm), [(Nat(u[0]), Nat(u[1]), Nat(u[2])) for u in users]))
             hs = Some(ent)
             prev_hooks = ob["hooks"]
-        h.append((op_term(op), C("mkObs", out, calls, delta), hs))
+        h.append((op_term(op), obt, hs))
     return (Nat(case["npool"]), h)
 
 
 def opkind(op):
+    if op[0] == "AddTrait":
+        return "AddTrait." + FIELD[op[2]]
     if op[0] == "Cop":
         return "%s.%s" % (FIELD[op[2]], op[3])
     if op[0] in ("SetRef", "SetCont", "Touch"):
@@ -141,6 +156,8 @@ def key_fn(case, obs, step, clause):
 
 def show_graph(g):
     f, notify, optional, ch = g
+    if f == "|":
+        return " | ".join(show_graph(c) for c in ch)
     s = (f if isinstance(f, str) else FIELD[f]) + ("" if notify else "(quiet)")
     if ch:
         s += (".%s" % show_graph(ch[0])) if len(ch) == 1 else ".[%s]" % " | ".join(show_graph(c) for c in ch)
@@ -462,6 +479,10 @@ def gen_case(rnd, ctx, maxmut, cyclic=False):
         if budget[0] <= 0:
             return
         head, _n, _o, children = g
+        if head == "|":
+            for c in children:
+                build_path(c, x, budget)
+            return
         names = FILTERS[head] if isinstance(head, str) else [head]
         for f in names:
             if f in (1, 2):
@@ -511,12 +532,17 @@ def gen_case(rnd, ctx, maxmut, cyclic=False):
             ctx.count("expr:" + text)
         else:
             g = gen_graph(rnd, rnd.choice([1, 2, 2, 3, 3, 4]))
+            if rnd.random() < 0.12:
+                g2 = gen_graph(rnd, rnd.choice([1, 2, 3]))
+                if expand(g2) != expand(g):
+                    g = ["|", True, False, [g, g2]]
+                    ctx.count("expr:parallel-at-top")
             ctx.count("expr:random-depth")
             txt = json.dumps(g)
             for name in FILTERS:
                 if '"%s"' % name in txt:
                     ctx.count("expr:filter-" + name)
-            if isinstance(g[0], str):
+            if isinstance(g[0], str) and g[0] != "|":
                 ctx.count("expr:filter-at-root")
         if rnd.random() < 0.7:
             build_path(g, r, [rnd.randint(1, 5)])
@@ -597,6 +623,85 @@ def corpus():
     return cs
 
 
+def gen_dyn_case(rnd, ctx):
+    """A history with add_trait: optional named observers of traits that do not exist yet, anytrait observers,
+    the trait_added maintainers.  Links only go from lower to higher object numbers (acyclic)."""
+    npool = 4
+    d = rnd.choice([12, 12, 13])
+    n = rnd.random() < 0.7
+    V = [0, True, False, []]
+    shapes = [[d, True, True, []], [d, n, True, [V]], [1, n, False, [[d, n, True, [V]]]],
+              ["anytrait", True, False, []], [1, n, False, [["anytrait", True, False, []]]],
+              [3, n, False, [[6, n, False, [[d, True, True, []]]]]], [d, n, True, [[d, n, True, [V]]]],
+              [1, True, False, [[d, True, True, []], V]]]
+    g = rnd.choice(shapes)
+    ops = []
+    have = set()          # (object, dynamic field) added so far
+    ref = {}
+
+    def add(op):
+        ops.append(op)
+        ctx.count("dyn-op:" + opkind(op))
+
+    def probes():
+        for o in range(npool):
+            ops.append(["Probe", o])
+
+    def mutation():
+        o = rnd.randrange(npool)
+        r = rnd.random()
+        if r < 0.3:
+            f = rnd.choice([12, 13, d])
+            if (o, f) in have:
+                return None
+            have.add((o, f))
+            return ["AddTrait", o, f]
+        if r < 0.6:
+            fs = [f for (x, f) in have if x == o]
+            if not fs or o == npool - 1:
+                return None
+            f = rnd.choice(fs)
+            v = rnd.choice(list(range(o + 1, npool)) + [None])
+            if ref.get((o, f)) == v:
+                return None
+            ref[(o, f)] = v
+            return ["SetRef", o, f, v]
+        if r < 0.85:
+            if o == npool - 1:
+                return None
+            f = rnd.choice([1, 2])
+            v = rnd.choice(list(range(o + 1, npool)) + [None])
+            if ref.get((o, f)) == v:
+                return None
+            ref[(o, f)] = v
+            return ["SetRef", o, f, v]
+        if o == npool - 1:
+            return None
+        items = [rnd.randrange(o + 1, npool) for _ in range(rnd.randint(1, 2))]
+        return ["SetCont", o, 3, items, False]
+
+    for _ in range(rnd.randint(0, 4)):
+        m = mutation()
+        if m:
+            add(m)
+    add(["Observe", 0, 0, g])
+    probes()
+    for _ in range(rnd.randint(2, 9)):
+        m = mutation()
+        if m:
+            add(m)
+            probes()
+    if rnd.random() < 0.3:
+        add(["Unobserve", 0, 0, g])
+        probes()
+        m = mutation()
+        if m:
+            add(m)
+            probes()
+    ctx.count("dyn-expr:" + show_graph(g))
+    return dict(npool=npool, shape="acyclic", ops=ops)
+
+
 def check_hyps(ctx, cases):
     """Evaluate the hypotheses of the theorems (Model.hyps) on the model run of every case."""
     terms = [(Nat(c["npool"]), [op_term(o) for o in c["ops"]]) for c in cases]
@@ -634,11 +739,12 @@ def run(ctx):
                        "heaps are acyclic, the F14 triggers are fixed corpus cases; non-trivial = some handler call "
                        "observed; distinct = distinct operation list")
     rnd = random.Random(ctx.seed)
-    n, maxmut = (500, 8) if ctx.tier == "quick" else (9000, 14)
+    n, maxmut = (500, 8) if ctx.tier == "quick" else (7000, 14)
     if ctx.replay:
         cases = [json.load(open(ctx.replay))["replay"]["case"]]
     else:
         cases = corpus() + [gen_case(rnd, ctx, maxmut) for _ in range(n)]
+        cases += [gen_dyn_case(rnd, ctx) for _ in range(n // 4)]       # histories with add_trait
         import os
         for i in range(int(os.environ.get("VERIF_C08_CYCLE_SEARCH", "0"))):   # development aid: look for F14 triggers
             c = gen_case(rnd, ctx, 5, cyclic=True)
